@@ -332,8 +332,8 @@ impl World for C19 {
 
     fn random_runs(&self, tier: Tier) -> u64 {
         match tier {
-            Tier::Quick => 300_000,
-            Tier::Thorough => 12_000_000,
+            Tier::Quick => 4_000_000,
+            Tier::Thorough => 100_000_000,
         }
     }
 
